@@ -18,10 +18,10 @@ func unsupported(f string, a ...interface{}) { panic(Unsupported{fmt.Sprintf(f, 
 
 // Dom bundles the BDD manager with the current path condition (used for range queries).
 type Dom struct {
-	M    *BDD
-	Cond Node // current `live` condition of the interpreter
-	rc   map[string][2]*big.Int
-	syms map[string]*SymInfo
+	M        *BDD
+	Cond     Node // current `live` condition of the interpreter
+	rc       map[string][2]*big.Int
+	syms     map[string]*SymInfo
 	symOrder []string
 }
 
